@@ -23,3 +23,54 @@ package protocol
 //@ func splitHostURI(host, uri) a, b, c
 //@   props C03
 //@   witness host = "", uri = "a:b"
+
+//@ func addLeadingSlash(dst, src) r
+//@   props C07, C03
+//@   alias dst
+//@   modifies spare(dst)
+//@   allocates
+//@   ensures extends(r, dst) && spareOnly(dst)
+//@   ensures old(len(src) == 0 || src[0] != '/') ==> len(r) == len(dst) + 1 && r[len(dst)] == '/'
+//@   ensures !old(len(src) == 0 || src[0] != '/') ==> len(r) == len(dst)
+
+//@ func decodeArgAppendNoPlus(dst, src) r
+//@   props C07, C03
+//@   alias dst
+//@   modifies spare(dst)
+//@   allocates
+//@   ensures extends(r, dst) && spareOnly(dst)
+//@   ensures len(src) > 0 && old(src[0]) != '%' ==> len(r) > len(dst) && r[len(dst)] == old(src[0])
+//@   loop 0:
+//@     invariant 0 <= i && i <= len(src)
+//@     invariant extends(dst, old(dst)) && spareOnly(old(dst))
+//@     invariant i == 0 ==> len(dst) == len(old(dst)) && (len(src) > 0 ==> src[0] == old(src[0]))
+//@     invariant i > 0 && old(src[0]) != '%' ==> len(dst) > len(old(dst)) && dst[len(old(dst))] == old(src[0])
+
+// C07: the normalised path starts with '/', has no "//", "/./", "/../" and does not end in "/..".
+//@ func normalizePath(dst, src) r
+//@   props C07, C03
+//@   requires !sameArray(dst, src)
+//@   modifies bytes(dst), spare(dst)
+//@   allocates
+//@   top-ensures len(r) >= 1 && r[0] == '/'
+//@   top-ensures forall(k, 0, len(r) - 1, !(r[k] == '/' && r[k+1] == '/'))
+//@   top-ensures forall(k, 0, len(r) - 2, !(r[k] == '/' && r[k+1] == '.' && r[k+2] == '/'))
+//@   top-ensures forall(k, 0, len(r) - 3, !(r[k] == '/' && r[k+1] == '.' && r[k+2] == '.' && r[k+3] == '/'))
+//@   top-ensures !(len(r) >= 3 && r[len(r)-3] == '/' && r[len(r)-2] == '.' && r[len(r)-1] == '.')
+//@   loop 1:
+//@     invariant sameArray(b, dst) && off(b) >= off(dst) && off(b) + len(b) == off(dst) + bSize && 1 <= bSize && bSize <= len(dst) && len(b) <= cap(b)
+//@     invariant within(dst, old(dst))
+//@     invariant capOnly(old(dst))
+//@     invariant dst[0] == '/'
+//@     invariant forall(k, 0, off(b) - off(dst), !(dst[k] == '/' && dst[k+1] == '/'))
+//@   loop 2:
+//@     invariant sameArray(b, dst) && off(b) == off(dst) && 1 <= len(b) && len(b) <= len(dst)
+//@     invariant within(dst, old(dst)) && capOnly(old(dst))
+//@     invariant b[0] == '/'
+//@     invariant forall(k, 0, len(b) - 1, !(b[k] == '/' && b[k+1] == '/'))
+//@   loop 3:
+//@     invariant sameArray(b, dst) && off(b) == off(dst) && 1 <= len(b) && len(b) <= len(dst)
+//@     invariant within(dst, old(dst)) && capOnly(old(dst))
+//@     invariant b[0] == '/'
+//@     invariant forall(k, 0, len(b) - 1, !(b[k] == '/' && b[k+1] == '/'))
+//@     invariant forall(k, 0, len(b) - 2, !(b[k] == '/' && b[k+1] == '.' && b[k+2] == '/'))
